@@ -7,6 +7,7 @@ mod k_order;
 mod k_vars;
 mod k_lex;
 mod k_damage;
+mod k_crash;
 mod shrink;
 mod sym;
 
@@ -27,6 +28,8 @@ fn run_line(line: &str) -> String {
         "vars" => k_vars::run(&f[1..]),
         "lex" => k_lex::run(&f[1..]),
         "damage" => k_damage::run(&f[1..]),
+        "crash" => k_crash::run(&f[1..]),
+        "stack" => k_crash::run_stack(&f[1..]),
         "order" => k_order::run_order(&f[1..]),
         "track" => k_order::run_track(&f[1..]),
         _ => "BADKIND".into(),
@@ -46,6 +49,7 @@ fn main() {
             let tier = args[5].as_str();
             let prefix = args[6].as_str();
             let profile = args.get(7).map(|s| s.as_str()).unwrap_or("default");
+            let offset: usize = args.get(8).and_then(|s| s.parse().ok()).unwrap_or(0);
             let mut rng = gen::Rng::new(seed);
             let mut req = std::io::BufWriter::new(std::fs::File::create(format!("{}.req", prefix)).unwrap());
             let mut imp = std::io::BufWriter::new(std::fs::File::create(format!("{}.imp", prefix)).unwrap());
@@ -57,13 +61,19 @@ fn main() {
                     "vars" => k_vars::gen(&mut rng, tier, i, &mut stats),
                     "lex" => k_lex::gen(&mut rng, tier, i, &mut stats),
                     "damage" => k_damage::gen(&mut rng, tier, i, &mut stats),
+                    "crash" => k_crash::gen(&mut rng, tier, i, &mut stats),
+                    "crashx" => k_crash::gen_exhaustive(i + offset),
+                    "stack" => k_crash::gen_stack(i),
                     "order" => k_order::gen(&mut rng, tier, i, &mut stats),
                     "orderx" => k_order::gen_exhaustive(i),
                     "track" => k_order::gen_track(&mut rng, tier, i, &mut stats),
                     _ => panic!("unknown kind"),
                 };
-                let ans = run_line(&line);
+                // the request is on disk before the library is called: if the process dies
+                // (stack overflow, abort) the last request line is the culprit
                 writeln!(req, "{}", line).unwrap();
+                req.flush().unwrap();
+                let ans = run_line(&line);
                 writeln!(imp, "{}", ans).unwrap();
             }
             let mut st = std::fs::File::create(format!("{}.stats", prefix)).unwrap();
@@ -80,6 +90,11 @@ fn main() {
                 let line = line.unwrap();
                 writeln!(out, "{}", run_line(&line)).unwrap();
             }
+        }
+        // harness stackchild <fn> <depth> <style>: one call on a 2 MiB thread (may abort)
+        "stackchild" => {
+            let code = k_crash::stack_child(&args[2], args[3].parse().unwrap(), &args[4]);
+            std::process::exit(code);
         }
         // harness shrink (one request line on stdin; smaller candidate requests on stdout)
         "shrink" => {
